@@ -39,7 +39,7 @@ type Pools struct {
 }
 
 var topSegs = []string{"assets", "expenses", "petty cash", "checking", "income", "liabilities", "equity", "Assets", "Expenses", "misc", "x", "активы", "projects"}
-var subSegs = []string{"cash", "food", "bank checking", "card1", "чек", "наличные", "opening balances", "Salary", "a", "B2", "y😀z", "rent", "café", "long account segment name"}
+var subSegs = []string{"cash", "food", "bank checking", "card1", "чек", "наличные", "opening balances", "Salary", "a", "B2", "y😀z", "rent", "café", "long account segment name", "2024", "bank 2", "acct-1"}
 var symPool = []string{"$", "€", "EUR", "USD", "AAPL", "AB C", "ACME Inc.", "£", "🍎 X", "ЕВРО"}
 var payeePool = []string{"shop", "Whole Foods", "café", "Ашан", "grocery store", "x", "landlord", "bakery 😀"}
 var tagPool = []string{"k", "trip", "Project-1", "a_b", "type"}
@@ -252,6 +252,10 @@ func GenDesc(t *rapid.T, p *Profile, pools *Pools) (string, string) {
 func GenComment(t *rapid.T, p *Profile, pools *Pools, allowTags bool) *m.Comment {
 	n := rapid.IntRange(1, 3).Draw(t, "nitems")
 	c := &m.Comment{Lead: rapid.SampledFrom([]string{" ", "", "  "}).Draw(t, "lead")}
+	if !p.off("comment.empty") && rapid.IntRange(0, 11).Draw(t, "emptycomment") == 0 {
+		// a comment mark with nothing, or only blanks, behind it
+		return c
+	}
 	texts := []string{"note", "some text", "é 😀", "x y z"}
 	if p.off("text.nonascii") || p.off("text.nonbmp") {
 		texts = []string{"note", "some text", "x y z"}
